@@ -28,6 +28,7 @@ func init() {
 			{ID: "R13f", Floor: 4, Doc: "index codec prefix read with the same varint family it is written with (= R11c)", Run: ruleR11c},
 			{ID: "R13d", Floor: 20, Doc: "section lengths bounded by the section limit, header by the header limit (= R09c)", Run: ruleR09c},
 			{ID: "R13h", Floor: 2, Doc: "Inspect scans exactly the payload window DataOffset..DataOffset+DataSize (= R10d)", Run: ruleR10d},
+			{ID: "R13i", Floor: 1, Doc: "Inspect and the block reader run under the same options: nothing rewrites an option after ApplyOptions (= R04j)", Run: ruleR04j},
 		},
 	})
 }
